@@ -334,7 +334,7 @@ class BVDomain:
         kw = {k: v for k, v in kw.items() if k not in ('dtype', 'casting', 'where') or v is not None}
         rdt = self.result_dtype(ufunc, inputs)
         ins = [self._tonp(x) for x in inputs]
-        if method == '__call__':
+        if method == '__call__' and ufunc is not np.matmul:
             if ufunc in self.BIN:
                 f = np.frompyfunc(self.BIN[ufunc], 2, 1)
                 r = f(*ins)
@@ -349,6 +349,8 @@ class BVDomain:
                 r = np.frompyfunc(lambda a, b: a ** (int(b) if isinstance(b, (B.BV, B.SB)) else b), 2, 1)(*ins)
             else:
                 raise Unsupported(f'ufunc {ufunc.__name__} in BV domain')
+        elif ufunc is np.matmul and method == '__call__':
+            r = np.matmul(*ins)
         elif method == 'reduce' and ufunc in (np.add, np.multiply, np.logical_and, np.logical_or, np.bitwise_xor):
             r = getattr(ufunc, method)(*ins, **kw)
         else:
